@@ -1,6 +1,6 @@
 SPECIFICATION Spec
 CONSTANTS
-  NLoaders = 2
+  NLoaders = 3
   MaxOps = 4
   Emit = TRUE
 INVARIANTS FirstWins EmitVec
